@@ -142,7 +142,7 @@ func genC01(t *Tape, tier string) *Scenario {
 			Step{Kind: kData, Data: []byte("DATA\r\n"), Wait: 1},
 			Step{Kind: kBody, Data: stream, Need: 354, Segs: drawSegs(t, len(stream), special), Gaps: drawGaps(t), Wait: -1},
 		)
-		if len(stream) > 6 && t.Chance(1, 12) {
+		if len(stream) > 6 && sc.Srv.ReadTO != 10*time.Second && t.Chance(1, 12) {
 			// a client that takes a minute inside the message, against a server whose
 			// WriteTimeout is seconds: only ReadTimeout (none, or ten minutes) governs
 			// how long the server waits for input
@@ -152,6 +152,19 @@ func genC01(t *Tape, tier string) *Scenario {
 			b.Gaps = []Dur{0, time.Minute}
 			steps[len(steps)-4].Pre = 20 * time.Second
 			sc.Strata = []string{"pause-longer-than-WriteTimeout"}
+		} else if len(stream) > 6 && len(sc.Strata) == 0 && t.Chance(1, 12) {
+			// MAIL, RCPT and DATA arrive in one segment, the backend takes 7 s over the
+			// recipient, and the client takes 6 s inside the message: with ReadTimeout at 10 s
+			// nothing is late, the time a callback takes is not the client's
+			sc.Srv.ReadTO = 10 * time.Second
+			cp.ParkRcpt = 7 * time.Second
+			steps[len(steps)-4].Glue, steps[len(steps)-4].Wait = true, 0
+			steps[len(steps)-3].Glue, steps[len(steps)-3].Wait = true, 0
+			steps[len(steps)-2].Wait = 3
+			b := &steps[len(steps)-1]
+			b.Segs = []int{1 + t.Intn(len(stream)-1), len(stream)}
+			b.Gaps = []Dur{0, 6 * time.Second}
+			sc.Strata = []string{"pipelined-envelope-slow-callback-paced-message"}
 		}
 		dp := DataPlan{ReadSizes: drawReadSizes(t), ParkReads: drawParks(t)}
 		if t.Chance(1, 8) {
@@ -204,6 +217,9 @@ func checkC01(sc *Scenario, h *History) []Violation {
 
 func classifyC01(sc *Scenario, h *History, st *Stats) string {
 	fp := ""
+	if sc.Srv.ReadTO == 10*time.Second && len(sc.BE.Conns) > 0 && sc.BE.Conns[0].ParkRcpt == 7*time.Second {
+		st.Probes["pipelined_envelope_slow_callback_then_message_paced_within_ReadTimeout"]++
+	}
 	if sc.Srv.WriteTO == 5*time.Second {
 		st.Faults["client_pauses_longer_than_WriteTimeout_inside_message"]++
 	}
@@ -262,7 +278,7 @@ func classifyC01(sc *Scenario, h *History, st *Stats) string {
 func init() {
 	register(&Property{
 		ID: "C01", Level: "exploration",
-		Rule:     "one to three DATA transactions over the raw driver; body = every string over {'.',CR,LF,x} up to length 6 (sweep) or a seeded stream over all 256 octets up to ~9000 octets; transport segmentation (2-splits at CR/LF/dot, byte-wise, random sizes, 4096-boundary), server short reads, backend read-buffer sizes and parks are drawn per run. Non-trivial: the body has '.', CR or LF at a line start, or a segment boundary falls inside a CR LF '.' sequence; distinct by (octet-class string of the body, segmentation plan, read-size plan). Fault stratum: the client pauses for a minute inside the message against a server whose WriteTimeout is 5 s (only ReadTimeout governs input).",
+		Rule:     "one to three DATA transactions over the raw driver; body = every string over {'.',CR,LF,x} up to length 6 (sweep) or a seeded stream over all 256 octets up to ~9000 octets; transport segmentation (2-splits at CR/LF/dot, byte-wise, random sizes, 4096-boundary), server short reads, backend read-buffer sizes and parks are drawn per run. Non-trivial: the body has '.', CR or LF at a line start, or a segment boundary falls inside a CR LF '.' sequence; distinct by (octet-class string of the body, segmentation plan, read-size plan). Fault stratum: the client pauses for a minute inside the message against a server whose WriteTimeout is 5 s (only ReadTimeout governs input). Timing stratum: MAIL, RCPT and DATA in one segment, a Rcpt callback of 7 s and a 6 s pause inside the message against ReadTimeout 10 s - nothing is late.",
 		Gen:      genC01,
 		Check:    checkC01,
 		Classify: classifyC01,
@@ -280,7 +296,7 @@ func init() {
 		Real:        []string{"smtp.Server.Serve/handleConn", "smtp.Conn command loop", "dataReader", "lineLimitReader", "net/textproto.Reader", "bufio.Reader"},
 		Stub:        []string{"net.Listener (SimListener)", "net.Conn (SimConn)", "Backend/Session (SimBackend)", "clock (testing/synctest fake clock)", "SMTP client (raw driver)"},
 		Assumptions: []string{"go-smtp is compiled with go1.26.8 for the simulation; the baseline suite uses go1.23.5", "the reference unstuffer follows RFC 5321 4.5.2 with CRLF-only line ends"},
-		Required:    []string{"segment_boundary_inside_CRLF_dot", "dotCR_or_CRCRLF", "stuffed_dot_line", "short_read", "client_pauses_longer_than_WriteTimeout_inside_message"},
+		Required:    []string{"segment_boundary_inside_CRLF_dot", "dotCR_or_CRCRLF", "stuffed_dot_line", "short_read", "client_pauses_longer_than_WriteTimeout_inside_message", "pipelined_envelope_slow_callback_then_message_paced_within_ReadTimeout"},
 		QuickRuns:   150000, ThoroughRuns: 4000000,
 	})
 }
